@@ -184,6 +184,29 @@ def inventory(plat, c, l, k, flavour):
         for d in devs:
             sx.check(f.get_device(d.key) is d, "inv.lookup-by-key")
         sx.check(f.get_device("no-such-key") is None, "inv.lookup-unknown-key")
+        # ---- a second facade in the same process (another spa, or a reconnect) has its own inventory
+        if flavour == "async":
+            f2 = GeckoAsyncFacade(spa, tm)
+        else:
+            f2 = fe.sync_facade(spa)
+        sx.check([d.key for d in f2.all_automation_devices] == keys, "inv.second-facade-has-the-same-own-inventory",
+                 lambda: f"{[d.key for d in f2.all_automation_devices]} vs {keys}")
+        sx.check(all(a is not b for a, b in zip(f2.all_automation_devices, devs)), "inv.second-facade-has-its-own-objects")
+        sx.check([d.key for d in f.all_automation_devices] == keys, "inv.first-facade-unaffected-by-the-second")
+        if flavour == "sync":
+            # re-scan after a reconnect with every output un-wired: lookups follow the new scan
+            items2 = list(items)
+            for o in outs:
+                a = acc[o]
+                fe.set_item(items2, a, a.items.index("NA") if "NA" in a.items else 0)
+            spa.struct.set_status_block(fe.block_from_items(items2))
+            old_user = [d.key for d in f.all_user_devices]
+            f._on_connected(spa)
+            sx.check(f.all_user_devices == [], "inv.rescan-follows-the-new-wiring")
+            for k_ in old_user:
+                sx.check(f.get_device(k_) is None, "inv.lookup-follows-the-rescan", lambda: f"{k_} still found")
+            for d in f.all_automation_devices:
+                sx.check(f.get_device(d.key) is d, "inv.lookup-follows-the-rescan")
     return scenario
 
 
